@@ -102,6 +102,17 @@ class Ctx(object):
         if len(self.samples) < limit:
             self.samples.append(case)
 
+    def known(self, key):
+        """Exclusion by construction: True (and counted) when `key` is an open known
+        finding of this property, so the oracle can skip exactly that shape and go on."""
+        if getattr(self, 'no_exclusion', False):
+            return False
+        if key in open_known_keys(self.mod.ID):
+            self.excluded_known += 1
+            self.labels['excluded_known:' + key] += 1
+            return True
+        return False
+
     def mkscratch(self):
         os.makedirs(self.scratch, exist_ok=True)
         return self.scratch
@@ -446,6 +457,7 @@ def _replay_known(mod, path):
     """Re-run a known finding's witness with exclusion switched off."""
     data = json.load(open(path))
     ctx = Ctx(mod, 'quick', 0, 0, {'known': path})
+    ctx.no_exclusion = True
     try:
         try:
             mod.check_case(data['case'], ctx)
